@@ -440,6 +440,7 @@ func runCase(cs Case, st *stats) (key, expected, observed string) {
 	wr := make([]wres, cs.Writers)
 	rr := make([]rres, cs.Readers)
 	var toggles []interval
+	var togglerErr atomic.Value // string: first wrong answer inside a match-all interval
 	stamp := func() uint64 {
 		if cs.NoClock {
 			return 0
@@ -590,7 +591,11 @@ func runCase(cs Case, st *stats) (key, expected, observed string) {
 				s := stamp()
 				f.Add(all)
 				for k := 0; k < 50; k++ {
-					f.Contains(u2ip(uint32(k)))
+					// 0.0.0.0/0 is present from before this call until after it (only this goroutine
+					// toggles it): whatever the writers are doing, the lookup is covered
+					if !f.Contains(u2ip(30<<24 | uint32(k))) {
+						togglerErr.Store(fmt.Sprintf("matchall-lost: Contains(%s)=false while 0.0.0.0/0 was present for the whole call (writers add and remove other ranges meanwhile)", u2ip(30<<24|uint32(k))))
+					}
 				}
 				f.Remove(all)
 				e := stamp()
@@ -609,6 +614,9 @@ func runCase(cs Case, st *stats) (key, expected, observed string) {
 	tg.Wait()
 	if b := witness(); b != "" {
 		return "instances-interfere", "filter instances are independent of each other", b
+	}
+	if e, _ := togglerErr.Load().(string); e != "" {
+		return "matchall-lost", "a lookup is true for an address covered by a range that is present for the whole duration of the call", e
 	}
 	st.trials++
 	st.togglerIntervals += int64(len(toggles))
